@@ -9,6 +9,12 @@
 //	  AtFloatHistogram, fresh or re-used target). Observed: chunk headers, per sample (t, hint, value).
 //	  The model must predict all of it; `holds` is the property on the concatenated read.
 //
+//	merge cases: two or three overlapping series (timestamps shared between them carry equal or different
+//	  values) are appended through the real appenders; every resulting chunk is one input of the real
+//	  chained sample iterator (ChainSampleIteratorFromIterables / FromIterators / ChainedSeriesMerge).
+//	  The model must predict the merged list from the appended operations alone (chunk model + merge
+//	  model); `holds` is the property on the merged list.
+//
 //	query cases: a real tsdb.DB (head, out-of-order head, blocks from head and OOO compaction,
 //	  vertical merges of overlapping blocks, reopen, deletes) is filled with a generated histogram series
 //	  and queried at generated ranges through the queriers DB.Querier builds (block queriers, range head,
@@ -703,6 +709,160 @@ func genChunkCase(r *gen.Rand, m *gallina.Meta) (bool, int, []hop, [][2]int64) {
 	return float, mode, ops, ivs
 }
 
+// ---------------------------------------------------------------- merge cases (chained iterator over real chunks)
+
+type mergeDesc struct {
+	Shape  string      `json:"shape"`
+	Kind   string      `json:"kind"`
+	Read   string      `json:"read"`
+	Via    string      `json:"via"`
+	Series [][]chunkOp `json:"series"`
+}
+
+type chunkSeries struct{ c chunkenc.Chunk }
+
+func (s chunkSeries) Labels() labels.Labels                           { return lset }
+func (s chunkSeries) Iterator(it chunkenc.Iterator) chunkenc.Iterator { return s.c.Iterator(it) }
+
+// emitMergeCase appends every series through the real appenders and feeds every resulting chunk as one
+// input to the real chained sample iterator (the way mergedOOOChunks / ChainedSeriesMerge do).
+func emitMergeCase(cf *gallina.CaseFile, m *gallina.Meta, id int, float bool, mode, via int, series [][]hop, shape string) {
+	desc := mergeDesc{Shape: shape, Kind: map[bool]string{false: "int", true: "float"}[float], Read: fmt.Sprint(mode),
+		Via: []string{"ChainSampleIteratorFromIterables", "ChainSampleIteratorFromIterators", "ChainedSeriesMerge"}[via]}
+	var e enc
+	e.n(2)
+	e.n(int64(id))
+	e.b(float)
+	e.n(int64(len(series)))
+	var chks []chunkenc.Chunk
+	seen := map[int64]int{}
+	for _, ops := range series {
+		e.n(int64(len(ops)))
+		var d []chunkOp
+		for _, op := range ops {
+			e.b(op.cut)
+			e.n(op.t)
+			if float {
+				e.fhist(op.h.ToFloat(nil))
+			} else {
+				e.hist(op.h)
+			}
+			d = append(d, chunkOp{op.cut, op.t, op.h.String()})
+			seen[op.t]++
+		}
+		desc.Series = append(desc.Series, d)
+		chks = append(chks, appendAll(float, ops)...)
+	}
+	var it chunkenc.Iterator
+	switch via {
+	case 0:
+		var its []chunkenc.Iterable
+		for _, c := range chks {
+			its = append(its, c)
+		}
+		it = storage.ChainSampleIteratorFromIterables(nil, its)
+	case 1:
+		var its []chunkenc.Iterator
+		for _, c := range chks {
+			its = append(its, c.Iterator(nil))
+		}
+		it = storage.ChainSampleIteratorFromIterators(nil, its)
+	default:
+		var ss []storage.Series
+		for _, c := range chks {
+			ss = append(ss, chunkSeries{c})
+		}
+		it = storage.ChainedSeriesMerge(ss...).Iterator(nil)
+	}
+	merged := readIter(it, mode)
+	e.obsList(merged)
+	cf.Add(e.String())
+	m.Case(id, desc)
+	dups := 0
+	for _, n := range seen {
+		if n > 1 {
+			dups++
+		}
+	}
+	m.Hit("merge/inputs=" + bucket(len(chks)))
+	m.Hit("merge/equal-timestamps=" + bucket(dups))
+	if dups > 0 {
+		m.Nontrivial++
+	}
+}
+
+// genMergeCase: two or three overlapping sources cut out of one series; timestamps shared between
+// sources carry the same value or (from a second, independent counter) a different one.
+func genMergeCase(r *gen.Rand, m *gallina.Meta) (bool, int, int, [][]hop) {
+	w, alt := newWorld(r), newWorld(r)
+	n := 3 + r.Intn(10)
+	type smp struct {
+		t int64
+		h *histogram.Histogram
+	}
+	var base []smp
+	t := r.Range(-200, 200)
+	for i := 0; i < n; i++ {
+		t += r.Range(1, 50)
+		base = append(base, smp{t, w.next(r, m)})
+	}
+	nsrc := 2 + r.Intn(2)
+	series := make([][]hop, nsrc)
+	held := map[int]bool{}
+	pick := func(k, i int) *histogram.Histogram {
+		if k > 0 && held[i] {
+			switch r.Intn(3) {
+			case 0:
+				return alt.next(r, m)
+			case 1:
+				return w.hist() // the newest state: larger counts than the samples that follow index i
+			}
+		}
+		return base[i].h
+	}
+	for k := 0; k < nsrc; k++ {
+		a := r.Intn(n)
+		b := a + r.Intn(n-a)
+		if k == 0 || r.Chance(1, 3) {
+			a, b = 0, n-1
+		}
+		for i := a; i <= b; i++ {
+			if r.Chance(3, 4) {
+				series[k] = append(series[k], hop{cut: r.Chance(1, 8), t: base[i].t, h: pick(k, i)})
+				held[i] = true
+			}
+		}
+	}
+	// make sure some timestamp is held twice with different values
+	if len(series[0]) > 0 {
+		j := []int{0, len(series[0]) / 2, len(series[0]) - 1}[r.Intn(3)]
+		tj := series[0][j].t
+		var out []hop
+		done := false
+		for _, op := range series[1] {
+			if op.t == tj {
+				done = true
+			}
+			if !done && op.t > tj {
+				out = append(out, hop{t: tj, h: w.hist()})
+				done = true
+			}
+			out = append(out, op)
+		}
+		if !done {
+			out = append(out, hop{t: tj, h: w.hist()})
+		}
+		series[1] = out
+	}
+	var nonEmpty [][]hop
+	for _, ops := range series {
+		if len(ops) > 0 {
+			nonEmpty = append(nonEmpty, ops)
+		}
+	}
+	return r.Chance(1, 3), r.Intn(4), r.Intn(3), nonEmpty
+}
+
 // ---------------------------------------------------------------- query cases (real DB)
 
 // tee wrappers: record what every part querier yields for the series.
@@ -1043,7 +1203,7 @@ func genDB(r *gen.Rand, cf *gallina.CaseFile, m *gallina.Meta, base string, id i
 	}
 	d := openRun(base, o)
 	defer d.close()
-	w := newWorld(r)
+	w, alt := newWorld(r), newWorld(r)
 	float := r.Chance(1, 4)
 	n := 8 + r.Intn(30)
 	type pend struct {
@@ -1073,6 +1233,20 @@ func genDB(r *gen.Rand, cf *gallina.CaseFile, m *gallina.Meta, base string, id i
 			k := r.Intn(len(held))
 			d.appendOne(held[k].t, held[k].h, float)
 			held = append(held[:k], held[k+1:]...)
+		}
+		// an out-of-order sample at a timestamp the series already holds, with another value (accepted
+		// by the head as long as it is not the newest timestamp): equal timestamps in overlapping sources
+		if o.OOOWindow > 0 && len(ts) > 2 && r.Chance(1, 5) {
+			tt := ts[r.Intn(len(ts)-1)]
+			dh := w.hist() // newest state: larger counts than the samples that follow tt
+			if r.Chance(1, 3) {
+				dh = alt.next(r, m)
+			}
+			if dh.CounterResetHint == histogram.GaugeType {
+				dh.CounterResetHint = histogram.UnknownCounterReset
+			}
+			m.Hit("query/equal-timestamp-ooo-append")
+			d.appendOne(tt, dh, float)
 		}
 		switch r.Intn(40) {
 		case 0, 1:
@@ -1178,13 +1352,43 @@ func corpus(cf *gallina.CaseFile, m *gallina.Meta, base string, id int) int {
 	reset := []hop{{false, 10, mkH(10)}, {false, 20, mkH(20)}, {false, 30, mkH(5)}, {false, 40, mkH(6)}, {false, 50, mkH(7)}}
 	emitChunkCase(cf, m, id, false, 0, reset, [][2]int64{{25, 35}}, "chunk-corpus")
 	id++
+	// equal timestamps with different values in overlapping inputs of the chained iterator
+	// (merge cases 10..15): duplicate at the first / middle / last position, several in a row, in both
+	a3 := []hop{{false, 100, mkH(30)}, {false, 200, mkH(60)}, {false, 300, mkH(90)}, {false, 400, mkH(120)}}
+	for k, b := range [][]hop{
+		{{false, 200, mkH(3000)}},
+		{{false, 100, mkH(3000)}},
+		{{false, 400, mkH(3000)}},
+		{{false, 200, mkH(3000)}, {false, 300, mkH(4000)}},
+		{{false, 100, mkH(1)}, {false, 200, mkH(3000)}, {false, 300, mkH(2)}, {false, 500, mkH(5000)}},
+		{{false, 50, mkH(1)}, {false, 200, mkH(60)}, {false, 300, mkH(3000)}},
+	} {
+		emitMergeCase(cf, m, id, k%2 == 1, k%4, k%3, [][]hop{a3, b}, "merge-corpus")
+		id++
+	}
+	// the same through the head and the out-of-order head, then through overlapping blocks
+	// (query cases 16..18): head chunk 30,60,90 at 100,200,300 plus an out-of-order 3000 at 200
+	d = openRun(base, tsdbx.Options{BlockRange: 100000, OOOWindow: 1000000, Overlapping: true})
+	for i, c := range []int64{30, 60, 90} {
+		d.appendOne(int64(100*(i+1)), mkH(c), false)
+	}
+	d.appendOne(200, mkH(3000), false)
+	d.query(cf, m, id, math.MinInt64, math.MaxInt64)
+	id++
+	d.do("compact-ooo", d.db.CompactOOOHead)
+	d.query(cf, m, id, math.MinInt64, math.MaxInt64)
+	id++
+	d.do("force-compact-head", func() error { return d.db.ForceCompactHead(0, 99999) })
+	d.query(cf, m, id, math.MinInt64, math.MaxInt64)
+	id++
+	d.close()
 	return id
 }
 
 func main() {
 	f := gallina.ParseFlags()
 	m := gallina.NewMeta("C12", f.Seed, f.Tier)
-	m.Rule = "chunk cases: more than one chunk and at least one non-first sample; query cases: more than one source or at least one returned sample marked NotCounterReset"
+	m.Rule = "chunk cases: more than one chunk and at least one non-first sample; merge cases: at least one timestamp held by two inputs; query cases: more than one source or at least one returned sample marked NotCounterReset"
 	cf := &gallina.CaseFile{Dir: f.Out,
 		Preamble: "From Coq Require Import List ZArith Uint63.\nFrom Verif Require Import corr.CorrC12.\nImport ListNotations.\nOpen Scope uint63_scope.\n",
 		Type:     "list int", Footer: gallina.StdFooter, PerShard: 100}
@@ -1195,12 +1399,19 @@ func main() {
 	defer os.RemoveAll(base)
 
 	id := corpus(cf, m, base, 0)
-	nChunk := f.Count(80, 1500)
-	nDB := f.Count(18, 280)
+	nChunk := f.Count(60, 1200)
+	nMerge := f.Count(40, 800)
+	nDB := f.Count(16, 250)
 	for i := 0; i < nChunk; i++ {
 		r := gen.Fork(f.Seed, id)
 		fl, mode, ops, ivs := genChunkCase(r, m)
 		emitChunkCase(cf, m, id, fl, mode, ops, ivs, "chunk")
+		id++
+	}
+	for i := 0; i < nMerge; i++ {
+		r := gen.Fork(f.Seed, id)
+		fl, mode, via, series := genMergeCase(r, m)
+		emitMergeCase(cf, m, id, fl, mode, via, series, "merge")
 		id++
 	}
 	for i := 0; i < nDB; i++ {
